@@ -130,24 +130,26 @@ PROPS.update({
                         "sockets through them; for TCP relay listeners it does not hold (finding F18)"]),
                 harnesses=["H2", "H8"]),
     "C05": h2prop(["TurnModel.Props.C05"], ["m:send", "m:cdata", "pdata"], ["topeer", "dind", "cdat"], ["chandata-padding"]),
-    "C06": dict(h2prop(["TurnModel.Props.C06"], ["m:alloc", "m:refresh", "adv", "state", "m:send", "pdata"], ["resp", "topeer", "dind", "cdat", "ev"],
-                       ["allocation-vanished-after-success", "data-race", "h11-setup"]), harnesses=["H2", "H11"]),
-    "C07": h2prop(["TurnModel.Props.C07", "TurnModel.Props.C07Trace"], ["m:perm", "m:bind", "adv", "m:send", "m:cdata", "pdata", "state"],
-                  ["resp", "topeer", "dind", "cdat"], []),
+    "C06": dict(h2prop(["TurnModel.Props.C06", "TurnModel.Props.C06Timer"], ["m:alloc", "m:refresh", "adv", "state", "m:send", "pdata"], ["resp", "topeer", "dind", "cdat", "ev"],
+                       ["allocation-vanished-after-success", "refresh-success-then-expired", "data-race", "h11-setup"]), harnesses=["H2", "H11"]),
+    "C07": dict(h2prop(["TurnModel.Props.C07", "TurnModel.Props.C07Trace", "TurnModel.Props.C07Timer"], ["m:perm", "m:bind", "adv", "m:send", "m:cdata", "pdata", "state"],
+                  ["resp", "topeer", "dind", "cdat"], ["entry-refreshed-then-expired", "h12-setup"]), harnesses=["H2", "H12"]),
     "C08": h2prop(["TurnModel.Props.C08"], ["m:bind", "m:cdata", "pdata", "state"], ["resp", "cdat", "topeer"],
                   ["chandata-invalid-number-emitted"]),
     "C19": dict(h2prop(["TurnModel.Props.C19"], ["m:*"], ["resp"], ["response-wrong-source", "shared-relay-port-udp4", "shared-relay-port-tcp4"],
                        ["allocate_truthful's relay uniqueness rests on the generator refusing a port in use: H8 checks it on real loopback sockets; for TCP relay listeners "
                         "it does not hold (finding F18)"]),
                 harnesses=["H2", "H8"]),
-    "C15": h2prop(["TurnModel.Props.C15"], ["*"], ["ev", "net", "dclosed", "cclosed"],
-                  ["allocation-count-mismatch", "sockets-left-after-close", "server-close-leaves-control-connections", "even-port-probe-left-open", "bind-response-lost-leaks-peer-connection"],
+    "C15": dict(h2prop(["TurnModel.Props.C15"], ["*"], ["ev", "net", "dclosed", "cclosed"],
+                  ["allocation-count-mismatch", "sockets-left-after-close", "server-close-leaves-control-connections", "even-port-probe-left-open", "bind-response-lost-leaks-peer-connection",
+                   "connection-attached-to-dead-allocation", "state-attached-to-dead-allocation", "bind-refused-but-connection-kept", "h12-setup"],
                   ["PARTIAL: goroutines and timers are ghost state in the model (one timer per entity, one reader goroutine per allocation); "
                    "their real existence is observed only through the simnet open/close log and the synctest bubble draining at the end of every history"]),
+                harnesses=["H2", "H12"]),
     "C16": dict(h2prop(["TurnModel.Props.C16", "TurnModel.Props.C16Timer"],
                        ["m:connect", "m:cbind", "pconn", "pc2p", "pp2c", "pclosec", "pclosep", "adv", "cclose", "rerr", "close", "state"],
                        ["resp", "dial", "catt", "cclosed", "p2p", "p2c", "dclosed"], ["manager-blocked-by-dial", "h9-setup", "server-wedged", "bind-response-lost-leaks-peer-connection", "bind-pipelined-bytes-lost",
-                        "bound-connection-closed-by-bind-timer", "connection-attached-to-dead-allocation", "bind-rule-broken", "h12-setup"],
+                        "bound-connection-closed-by-bind-timer", "connection-attached-to-dead-allocation", "bind-rule-broken", "bind-refused-but-connection-kept", "h12-setup"],
                        ["PARTIAL: io.Copy / TCP byte piping is the runtime's; byte integrity of the pipe is observed by the harness, not proved about Go",
                         "connection ids are canonicalised to first-occurrence indices (the real ids are random)"]),
                 env={"VERIF_H2_MODE": "tcp"}, harnesses=["H2", "H9", "H12"]),
@@ -215,7 +217,7 @@ PROPS["C12"] = {
 }
 
 PROPS["C13"] = {
-    "modules": ["TurnModel.Props.C13", "TurnModel.Props.C13Nums", "TurnModel.Props.C13Locks"], "gen": True,
+    "modules": ["TurnModel.Props.C13", "TurnModel.Props.C13Nums", "TurnModel.Props.C13Locks", "TurnModel.Props.C13Perm"], "gen": True,
     "harnesses": ["H5", "H11", "H10"], "view": ["cwrite", "cin", "cread", "cadv", "cclose", "cnet"], "outs": None,
     "alarms": ["granted-permission-forgotten", "write-after-close-emits", "dial-after-close-emits", "inbound-blocks", "h5-setup", "harness-died", "read-deadline-not-sticky", "data-race", "concurrent-writers-mixed", "h11-setup", "channel-number-reused", "concurrent-first-write-closes-allocation", "accept-deadline-not-sticky", "accept-blocked-after-close", "stream-other-record", "permission-address-aliased"],
     "rule": "H5 drives the real turn.Client + UDPConn (Allocate, WriteTo, ReadFrom, SetReadDeadline, Close, HandleInbound, the 30 s bindings timer) against a scripted TURN server on an "
@@ -302,9 +304,9 @@ MANIFEST_TEXT.update({
     "C05": _mt("payload identity both ways for all lengths (composition of M4 gating with the ChannelData/XOR codecs of M1 and the framer of M2), oversize dropped, "
                "inbound MTU rule, at-most-once, truthful attribution, padding shape.",
                "DESIGN.md §6 C05", "Lean 4 composition of codec round-trip and relay theorems + differential correspondence with boundary payload sizes"),
-    "C06": _mt("granted_lifetime, reported_exact, allocate_success / refresh_success (expiry = now + granted; Refresh 0 deletes in the same step), alive_iff on every time advance, dead_is_silent.",
+    "C06": _mt("C06Timer: refresh_vs_expiry / never_broken_any_schedule (a Refresh racing the lifetime timer, all interleavings and any sequence; proviso regenerated from the source). granted_lifetime, reported_exact, allocate_success / refresh_success (expiry = now + granted; Refresh 0 deletes in the same step), alive_iff on every time advance, dead_is_silent.",
                "DESIGN.md §6 C06", "Lean 4 theorems over symbolic time + differential correspondence under virtual time"),
-    "C07": _mt("entries_bounded invariant, create_permission_installs / channel_bind_installs (exact new expiries; ChannelBind refreshes the permission with the permission timeout), "
+    "C07": _mt("C07Timer: refresh_vs_expiry / never_broken_any_schedule (refresh of a permission/binding racing its expiry callback at the list's lock; proviso regenerated). entries_bounded invariant, create_permission_installs / channel_bind_installs (exact new expiries; ChannelBind refreshes the permission with the permission timeout), "
                "change_monotone (nothing but time shortens an entry), expires_exactly, rebind_after_expiry; entry_lives (trace form, any history: a permission / binding with expiry >= e is still held "
                "with expiry >= e after ANY sequence of requests of any client, relay events and time steps while the clock is below e and the allocation has not ended), held_perm_relays.",
                "DESIGN.md §6 C07", "Lean 4 invariants + exact-expiry theorems + differential correspondence around every horizon"),
@@ -313,7 +315,7 @@ MANIFEST_TEXT.update({
     "C12": _mt("exactly_once over EVERY event history (conservation law: completions + pending = begun), response_matches_by_id, response_other_id_untouched, close_completes_all, "
                "fire_recurrence / timer_rearmed / rtx_schedule (for every RTO: 7 transmissions at the back-off offsets, failure at the 7th firing, table empty), intervals_closed, regenerated constants.",
                "DESIGN.md §6 C12", "Lean 4 conservation law by induction over event histories + symbolic timetable + differential correspondence under virtual time"),
-    "C13": _mt("Inv preserved over every history (permitted => a CreatePermission success covered the IP; ok-state binding => its ChannelBind was confirmed), data_after_permission "
+    "C13": _mt("C13Perm: never_forgotten / never_forgotten_any_schedule (concurrent writers at the permission map: a granted permission keeps its entry; proviso regenerated). Inv preserved over every history (permitted => a CreatePermission success covered the IP; ok-state binding => its ChannelBind was confirmed), data_after_permission "
                "(for ALL server reaction scripts: data goes to the named peer with the given payload only after permission; ChannelData only on a confirmed binding of exactly that peer, "
                "Send indication otherwise; nothing when the permission fails), only_write_sends_data, channel_numbers_any_history (over ANY history, any number of peers: never more bindings than channel numbers, numbers pairwise distinct, "
                "in range, stable per peer, one binding per peer - NumInv preserved by every step), queue_fifo, chandata_inbound, closed_write_fails. PARTIAL: Go memory model.",
